@@ -54,7 +54,11 @@ class Report:
                      "rule expected exactly %d %s, found %d" % (expected, what, found))
 
     def undecide(self, rule, fn, why):
+        """The anchored function no longer has any shape the rule can decide: fail closed (a silent
+        'undecided' let seed C14-1 through).  Reported under anchor-resolution, keyed by rule+fn."""
         self.undecided.append({"rule": rule, "fn": fn, "why": why, "config": self.config})
+        self.bad("anchor-resolution", fn, "undecidable-shape:" + rule,
+                 "rule %s cannot decide %s on this tree: %s" % (rule, fn, why))
 
     def exception(self, rule, symbol, reason):
         self.exceptions_used.append({"rule": rule, "symbol": symbol, "reason": reason})
